@@ -734,7 +734,12 @@ def to_coq(case, obs):
     # real run: every recorded iteration is replayed through the model
     parts = []
     for it in obs.get("iters", []):
-        if "cap_error" in it:
+        tie = "mods_before" in it and cs.float_tie(it)
+        if tie:
+            cs.bump("run_optimisations_skipped_float_tie")
+        if tie:
+            pass
+        elif "cap_error" in it:
             parts.append("false")
         elif "cap" in it and "mods_before" in it:
             p = cs.run_system_expr(it, cs.has_clash(case))
@@ -748,7 +753,8 @@ def to_coq(case, obs):
         rows, bad = decided_rows(it["rows"], mods)
         if bad:
             parts.append("false")
-        parts.append(table_expr(rows, it["eps"], it["t"], it["in_cells"], mods))
+        if not tie:
+            parts.append(table_expr(rows, it["eps"], it["t"], it["in_cells"], mods))
         parts.append(extract_expr(mods, [c["rect"] for c in it["in_cells"]],
                                   {m["name"]: it["a"][m["name"]] for m in mods}, it["x"], it["y"], it["t"], it["aeps"],
                                   it.get("out"), obs["die"], exact_ok=False, k=64))
@@ -1032,6 +1038,7 @@ def run(ctx, out, replay=None):
         cases += [gen_extract(rng) for _ in range(n_ext)]
         cases += [gen_recenter(rng) for _ in range(n_rec)]
         cases += [gen_fixrule(rng) for _ in range(n_fix)]
+        cs.STATS.clear()
         stats = {"runs": 0, "returned": 0, "raised": 0, "invalid_input": 0, "iterations": 0, "solok_held": 0,
                  "solok_violated": 0, "solok_worst_excess": 0.0, "raised_kinds": {}, "solok_clauses": {}}
         inner = run_impl
@@ -1063,6 +1070,7 @@ def run(ctx, out, replay=None):
         fr.run_cases(ctx, out, cases, run_and_monitor, to_coq, oracle, failure_key, HEADER,
                      dist_key=dist_key, nontrivial=nontrivial, shard=60, shrink=shrink)
         out.extra["solver_runs"] = stats
+        out.extra["constraint_systems"] = dict(cs.STATS)
         if stats["runs"] and not stats["returned"]:
             ctx.notes.append("no real glbfloor run returned in this environment (solver failures: "
                              f"{stats['raised_kinds']}); only the synthetic correspondence was exercised")
